@@ -379,7 +379,7 @@ fn path_rel(root: &Path, path: &Path) -> String {
 
 #[cfg(kani)]
 #[path = "/verif/harness/rip-tools/builtins__shell.rs"]
-mod verif_kani;
+pub mod verif_kani;
 
 #[cfg(test)]
 mod tests {
